@@ -1148,3 +1148,15 @@ func isFreeVarLoad(v ssa.Value) bool {
 	}
 	return false
 }
+
+// storesDeep is storesTo seen through unexported helpers of the same package (see deepStoresTo): the access's Instr is
+// the instruction in fn through which the store happens (the store itself or the call of the helper) and Val is the
+// stored value with helper parameters replaced by the call's arguments. Use it wherever the rule does not need the
+// *ssa.Store itself.
+func storesDeep(fn *ssa.Function, f *types.Var) []fieldAccess {
+	var out []fieldAccess
+	for _, d := range deepStoresTo(fn, f) {
+		out = append(out, fieldAccess{Instr: d.Site, Field: f, Kind: "store", Val: d.translate(d.Store.Val)})
+	}
+	return out
+}
